@@ -20,11 +20,13 @@ def parseAct (w : String) : Option Action :=
   | ["cw", i, b] => do
     let i ← i.toNat?
     match b with
-    | "r" => some (.cwake i .ready) | "d" => some (.cwake i .dead) | "c" => some (.cwake i .ctx) | _ => none
+    | "r" => some (.cwake i .ready) | "d" => some (.cwake i .dead) | "c" => some (.cwake i .ctx)
+    | "x" => some (.cwake i .dc) | _ => none
   | ["ww", i, b] => do
     let i ← i.toNat?
     match b with
-    | "h" => some (.wwake i .ch) | "s" => some (.wwake i .stuck) | "c" => some (.wwake i .ctx) | _ => none
+    | "h" => some (.wwake i .ch) | "s" => some (.wwake i .stuck) | "c" => some (.wwake i .ctx)
+    | "x" => some (.wwake i .dc) | _ => none
   | ["gu", i, k] => do
     let i ← i.toNat?
     let k ← parseOptKey k
@@ -37,6 +39,7 @@ def parseAct (w : String) : Option Action :=
   | ["rd", c] => c.toNat?.map .ready
   | ["di", c] => c.toNat?.map .die
   | ["ca", i] => i.toNat?.map .cancel
+  | ["cl"] => some .closeDC
   | ["bg", c, b, k] => do
     let c ← c.toNat?
     let k ← parseOptKey k
@@ -70,7 +73,7 @@ def showState (s : State) : String :=
   s!"t{s.total} f{commaNat s.free.reverse} r{commaNat (s.reqs.foldr insertNat [])} x" ++
   ",".intercalate ((sortByKey s.inbox).map (fun e => s!"{e.1}:{e.2}")) ++
   " p" ++ ";".intercalate (s.callers.map (fun x => showPC x.pc ++ (if x.cancelled then "!" else ""))) ++
-  " c" ++ ";".intercalate (s.conns.map showConn)
+  " c" ++ ";".intercalate (s.conns.map showConn) ++ (if s.closed then " z1" else " z0")
 
 /-- Replay; returns the summaries of the visited states (newest first), whether `holdsB` held in
 all of them, and the index of the first action that was not enabled. -/
